@@ -162,7 +162,10 @@ impl Monitor for Mon {
                     }
                 }
             }
-            Act::Deposit { t, v, amount } if s.res.ok => {
+            Act::Deposit { t, v, amount, attach } if s.res.ok => {
+                if w.cfg.native && attach != amount {
+                    out.count("native_deposit_with_mismatched_funds_accepted");
+                }
                 out.count("deposit_checks");
                 let i = *t;
                 let m0 = s.pre.pos[*v][*t].as_ref().map(|p| p.margin.u128());
@@ -209,7 +212,7 @@ pub fn prop() -> HistProp {
         max_ops: (40, 100),
         cases: (12_000, 400_000),
         make: || Box::new(Mon::default()),
-        rule: "engine histories with margin / leverage inputs incl. 1 raw unit, non-integer leverage, leverage exactly D^2/imr and +-1 raw unit, D-1, twice the maximum, on fresh, increasing, reducing and reversing positions after price moves and with funding pending; withdrawals at free collateral +-1 / half / double / the whole margin; deposits of generated size. (a) after a successful OpenPosition leaving size != 0 both the engine's MarginRatio answer and the ratio recomputed from the post-state (OutputAmount, OutputTwap, cumulative premium fraction) are >= maintenance; (b) leverage < D or leverage*imr > D^2 must fail; (c) successful WithdrawMargin{a}: wallet + a exactly, stored margin = M - a - F >= 0, checkpoint = current fraction, FreeCollateral >= 0 afterwards; (d) successful DepositMargin{a}: stored margin rises by a = wallet decrease. Non-trivial: an open on an existing position after a >=1% move or with funding pending, or a leverage within one initial-ratio step of the boundary, or a withdrawal within 1% of the free collateral. Distinct by digest of (cfg, ops).",
+        rule: "engine histories with margin / leverage inputs incl. 1 raw unit, non-integer leverage, leverage exactly D^2/imr and +-1 raw unit, D-1, twice the maximum, on fresh, increasing, reducing and reversing positions after price moves and with funding pending; withdrawals at free collateral +-1 / half / double / the whole margin; deposits of generated size (native deployments: also with more / fewer coins attached than the amount argument). (a) after a successful OpenPosition leaving size != 0 both the engine's MarginRatio answer and the ratio recomputed from the post-state (OutputAmount, OutputTwap, cumulative premium fraction) are >= maintenance; (b) leverage < D or leverage*imr > D^2 must fail; (c) successful WithdrawMargin{a}: wallet + a exactly, stored margin = M - a - F >= 0, checkpoint = current fraction, FreeCollateral >= 0 afterwards; (d) successful DepositMargin{a}: stored margin rises by a = wallet decrease. Non-trivial: an open on an existing position after a >=1% move or with funding pending, or a leverage within one initial-ratio step of the boundary, or a withdrawal within 1% of the free collateral. Distinct by digest of (cfg, ops).",
         assumptions: &[],
         eval_counter: None,
     }
